@@ -77,26 +77,36 @@ time_t time(time_t *t) {
     if (t) *t = v;
     return v;
 }
-static int g_fixed_pid = 0;
-pid_t getpid(void) { return g_fixed_pid ? 4242 : (pid_t) syscall(SYS_getpid); }
+static int g_fixed_pid = 0; static long g_self = 0;
+pid_t getpid(void) { return g_fixed_pid == 1 ? 4242 : g_fixed_pid == 2 ? (pid_t) g_self : (pid_t) syscall(SYS_getpid); }
 static long g_ppid = -1;
 pid_t getppid(void) { return g_ppid >= 0 ? (pid_t) g_ppid : (pid_t) syscall(SYS_getppid); }
 
 typedef struct { long pid; vbytes content; } statent;
-static statent *g_stat = NULL; static size_t g_nstat = 0; static int g_stat_active = 0;
+static statent *g_stat = NULL; static size_t g_nstat = 0; static int g_stat_active = 0; static const char *g_stat_kind = "stat";
 FILE *fopen(const char *path, const char *mode) {
     static FILE *(*real)(const char *, const char *);
     if (!real) real = (FILE *(*)(const char *, const char *)) dlsym(RTLD_NEXT, "fopen");
     long pid; char tail[16];
-    if (g_stat_active && sscanf(path, "/proc/%ld/%15s", &pid, tail) == 2 && !strcmp(tail, "stat")) {
+    if (g_stat_active && sscanf(path, "/proc/%ld/%15s", &pid, tail) == 2 && !strcmp(tail, g_stat_kind)) {
         for (size_t i = 0; i < g_nstat; i++) if (g_stat[i].pid == pid) {
-            char p[600]; snprintf(p, sizeof p, "%s/stat.%ld", TMPDIR_, pid);
+            char p[600]; snprintf(p, sizeof p, "%s/%s.%ld", TMPDIR_, g_stat_kind, pid);
             FILE *w = real(p, "w"); fwrite(g_stat[i].content.p, 1, g_stat[i].content.n, w); fclose(w);
             return real(p, "r");
         }
         errno = ENOENT; return NULL;
     }
     return real(path, mode);
+}
+static void load_table(const char *spec) {
+    g_nstat = 0; g_stat = calloc(256, sizeof *g_stat);
+    if (strcmp(spec, "-")) {
+        char *dup = strdup(spec), *save = 0;
+        for (char *tok = strtok_r(dup, ",", &save); tok && g_nstat < 256; tok = strtok_r(0, ",", &save)) {
+            char *c = strchr(tok, ':'); if (!c) continue; *c = 0;
+            g_stat[g_nstat].pid = strtol(tok, 0, 10); g_stat[g_nstat].content = parse_bytes(c + 1); g_nstat++;
+        }
+    }
 }
 /* connect/send: capture instead of talking to the system */
 static int g_net_capture = 0; static socklen_t g_addrlen = 0; static char g_sunpath[256]; static char *g_sent = NULL; static size_t g_sent_n = 0;
@@ -261,14 +271,7 @@ static void handle(int nf, char **f, FILE *out) {
         put_buf(out, buf, sz, r, 1);
     } else if (!strcmp(f[0], "spawns") && nf == 4) {
         g_ppid = strtol(f[1], 0, 10);
-        g_nstat = 0; g_stat = calloc(256, sizeof *g_stat);
-        if (strcmp(f[2], "-")) {
-            char *dup = strdup(f[2]), *save = 0;
-            for (char *tok = strtok_r(dup, ",", &save); tok && g_nstat < 256; tok = strtok_r(0, ",", &save)) {
-                char *c = strchr(tok, ':'); if (!c) continue; *c = 0;
-                g_stat[g_nstat].pid = strtol(tok, 0, 10); g_stat[g_nstat].content = parse_bytes(c + 1); g_nstat++;
-            }
-        }
+        load_table(f[2]); g_stat_kind = "stat";
         g_stat_active = 1;
         vbytes a = parse_bytes(f[3]);
         int r = snoopy_filter_exclude_spawns_of(exact(a));
@@ -326,6 +329,25 @@ static void handle(int nf, char **f, FILE *out) {
         int r = snoopy_util_file_getSmallTextFileContent(p, &content);
         fprintf(out, "ok\t"); put_hexs(out, content); fprintf(out, "\t%d", r >= 0 ? 1 : 0);
         free(content);
+    } else if (!strcmp(f[0], "cgroup") && nf == 4) {
+        /* cgroup size arg content(~ = unreadable) : /proc/<pid>/cgroup scripted, pid fixed */
+        size_t sz = strtoull(f[1], 0, 10); vbytes a = parse_bytes(f[2]);
+        g_fixed_pid = 1; g_stat_kind = "cgroup"; g_stat_active = 1;
+        if (!strcmp(f[3], "~")) load_table("-"); else { char *spec = malloc(strlen(f[3]) + 16); sprintf(spec, "4242:%s", f[3]); load_table(spec); }
+        char *buf = malloc(sz); memset(buf, 'Z', sz); buf[0] = 0;
+        int r = snoopy_datasourceregistry_callByName("cgroup", buf, sz, exact(a));
+        g_stat_active = 0; g_fixed_pid = 0;
+        size_t n = strnlen(buf, sz);
+        if (n >= sz) fprintf(out, "unterminated"); else { fprintf(out, "ok\t"); put_hex(out, buf, n); fprintf(out, "\t%d", r < 0 ? 1 : 0); }
+    } else if (!strcmp(f[0], "rpname") && nf == 4) {
+        /* rpname size table(pid:hex,...) selfpid : /proc/<pid>/status scripted */
+        size_t sz = strtoull(f[1], 0, 10);
+        load_table(f[2]); g_stat_kind = "status"; g_stat_active = 1;
+        g_fixed_pid = 2; g_self = strtol(f[3], 0, 10);
+        char *buf = malloc(sz); memset(buf, 'Z', sz); buf[0] = 0;
+        int r = snoopy_datasourceregistry_callByName("rpname", buf, sz, "");
+        g_stat_active = 0; g_fixed_pid = 0;
+        put_buf(out, buf, sz, r, 1);
     } else if (!strcmp(f[0], "ds") && nf == 7) {
         /* ds name size arg file argv env : any registered data source, observed only */
         vbytes nm = parse_bytes(f[1]), a = parse_bytes(f[3]); size_t sz = strtoull(f[2], 0, 10);
